@@ -164,3 +164,14 @@ reg("C15",
          "RGBA/F32/F64/F16x3; update only with slice indexers. Trusted: TLC, the JSON bridge, the per-mode value map/projection of the harness.",
     technique="TLA+/TLC exhaustive model checking of the buffer and tile-file machines + replay of every TLC transition into the real code with state comparison after each call",
     design_ref="DESIGN.md 4.6, 5/C15")
+
+reg("C05",
+    text="Theorem T_Sub of spec/ToastLattice.tla: the quadrant recursion of _subsample (with its sub-array placement and diagonal rule) yields at [row r][col c] the canonical "
+         "centre point of tile (n+K, 2^K x + c, 2^K y + r); TLC checks it for K = 1..3 over every tile of the bounded lattice and emits the grids. The real compiled subsample() is "
+         "run with npix = 2, 4, 8 on every emitted tile and compared cell by cell with psi of TLC's grid; for npix = 256 the real toast_tile_get_coords arrays (all 65536 pixels) of "
+         "every tile to depth 2 (quick: a subset) and seeded tiles to depth 12, in both coordinate systems, are compared with psi of the centres and with the centre of the real tile "
+         "built eight levels deeper; the latitude-range and inside-the-tile clauses are evaluated on the real arrays.",
+    note="K <= 3 in TLC; K = 8 is compared against the theorem's right-hand side through psi. Trusted: normalize(a+b) as great-circle midpoint; the compiled extension cannot be "
+         "rebuilt here (no Cython), so only Python-level changes can be exercised by mutants. Tolerance 1e-9 (observed 2e-15).",
+    technique="TLA+/TLC theorem on the integer lattice (sub-sampling recursion = centres K levels deeper) + TLC-emitted grids and psi compared with the real pixel coordinates",
+    design_ref="DESIGN.md 4.4, 5/C05")
